@@ -178,9 +178,9 @@ func (o RewriteOpts) message(m string) string {
 
 func (o RewriteOpts) pred(i int) string {
 	if o.AltPrefix != "" && i%2 == 1 {
-		return fmt.Sprintf("%s.p%d", o.AltPrefix, i)
+		return o.AltPrefix + "." + predLocal(i)
 	}
-	return fmt.Sprintf("%s.p%d", o.Prefix, i)
+	return o.Prefix + "." + predLocal(i)
 }
 
 func (o RewriteOpts) path(p Path, top bool) string {
@@ -268,6 +268,8 @@ func (o RewriteOpts) body(f Formula) *YNode {
 		return m.put("rego", ystr(x.Code))
 	case Atom, Nested, Quant:
 		return o.body(And{[]Formula{x}})
+	case PC:
+		return o.body(And{x.Fs})
 	case And:
 		groupable := true
 		for _, k := range x.Fs {
@@ -380,8 +382,14 @@ func (o RewriteOpts) Render(p Program) string {
 		var names []*YNode
 		var ns []string
 		for _, v := range p.Validations {
-			if v.Level == lvl {
+			if listedUnder(v, lvl) {
 				ns = append(ns, v.Name)
+			}
+		}
+		// names listed under a level without a definition (tolerated by the translator)
+		for _, u := range p.Undefined {
+			if strings.HasPrefix(u, lvl+":") {
+				ns = append(ns, strings.TrimPrefix(u, lvl+":"))
 			}
 		}
 		for _, i := range o.order(len(ns)) {
@@ -552,11 +560,11 @@ func (c *Checker) CheckEquivalent(desc, textA, textB, codeA, codeB string, sc Sc
 func BaseProfilesC15() []Program {
 	a := func(f ...Formula) Formula { return And{f} }
 	b1 := Program{Name: "B1", Validations: []Validation{
-		{Name: "va", Level: "violation", Class: 0, Message: "m {{ex.p0}} x", F: a(Atom{Path: P(0), Kind: "minCount", N: 1}, Atom{Path: P(0), Kind: "pattern", Pattern: "^a"},
+		{Name: "va", Level: "violation", Class: 0, Message: FixPreds("m {{ex.p0}} x"), F: a(Atom{Path: P(0), Kind: "minCount", N: 1}, Atom{Path: P(0), Kind: "pattern", Pattern: "^a"},
 			Atom{Path: P(1), Kind: "in", Values: []ast.Value{str("a"), str("b")}}, Atom{Path: P(1), Kind: "maxCount", N: 2})},
 		{Name: "vb", Level: "warning", Class: 1, F: Or{[]Formula{a(Atom{Path: P(0), Kind: "minLength", N: 2}), Not{a(Atom{Path: P(1), Kind: "minCount", N: 1})}}}},
 		{Name: "vc", Level: "info", Class: 0, F: If{C: a(Atom{Path: P(1), Kind: "in", Values: []ast.Value{str("a"), str("b")}}), T: a(Atom{Path: P(0), Kind: "minCount", N: 1}), E: a(Atom{Path: P(0), Kind: "maxCount", N: 0})}},
-		{Name: "vd", Level: "violation", Class: 1, Message: "{{ex.p1}} then {{ex.p1}} and {{ex.p0}}", F: a(Atom{Path: P(1), Kind: "containsSome", Values: []ast.Value{str("a"), str("b")}})},
+		{Name: "vd", Level: "violation", Class: 1, Message: FixPreds("{{ex.p1}} then {{ex.p1}} and {{ex.p0}}"), F: a(Atom{Path: P(1), Kind: "containsSome", Values: []ast.Value{str("a"), str("b")}})},
 	}}
 	inner := a(Atom{Path: P(1), Kind: "minCount", N: 1}, Atom{Path: P(1), Kind: "maxCount", N: 1})
 	b2 := Program{Name: "B2", Validations: []Validation{
@@ -578,5 +586,12 @@ func BaseProfilesC15() []Program {
 		{Name: "vb", Level: "warning", Class: 0, F: Not{Or{[]Formula{isStr(1), isStr(0), Rego{Code: "$result = is_number(object.get($node, \"" + PredIRI(0) + "\", \"\"))", Message: "custom"}}}}},
 		{Name: "vc", Level: "info", Class: 1, F: Or{[]Formula{isStr(0), a(Atom{Path: P(1), Kind: "minCount", N: 1})}}},
 	}}
-	return []Program{b1, b2, b3, b4}
+	// level lists that also name validations without a definition (a leftover name), before, between
+	// and after defined ones
+	b5 := Program{Name: "B5", Undefined: []string{"violation:ghost", "warning:phantom", "info:gone"}, Validations: []Validation{
+		{Name: "va", Level: "violation+warning", Class: 0, F: a(Atom{Path: P(0), Kind: "minCount", N: 1})},
+		{Name: "vb", Level: "violation+info", Class: 0, F: a(Atom{Path: P(1), Kind: "maxCount", N: 0})},
+		{Name: "vc", Level: "warning", Class: 1, F: a(Atom{Path: P(0), Kind: "minCount", N: 1})},
+	}}
+	return []Program{b1, b2, b3, b4, b5}
 }
